@@ -31,8 +31,18 @@ CutLists == {<<>>, <<10>>, <<7, 15>>, <<0, 12, 24>>, <<-6, 11, 11, 30>>, <<4, 5,
 PathSpines == {<< <<0, 0>>, <<8, 0>>, <<8, 6>> >>, << <<1, 1>>, <<1, 9>>, <<7, 9>>, <<7, 3>> >>,
                << <<0, 0>>, <<6, 6>>, <<10, 6>> >>, << <<0, 8>>, <<9, 2>> >>}
 PathWidths == {<< <<2>>, <<0>> >>, << <<1>>, <<0>> >>, << <<2, 1>>, <<-2, 2>> >>}
+\* long skylines: n unit-wide columns of heights 1..7 on a common base, 2n + 2 vertices, the top walked
+\* right-to-left (the coordinate array fracture sorts is long and almost in decreasing order, which is
+\* what drives introsort to its heap-sort fallback) or left-to-right
+SkyH(i) == ((i * 7) % 5) + 1 + (i % 3)
+SkyRTL(n) == << <<0, 0>>, <<n, 0>> >> \o
+             [j \in 1..(2 * n) |-> LET i == n - 1 - ((j - 1) \div 2) IN
+                                    IF j % 2 = 1 THEN <<i + 1, SkyH(i)>> ELSE <<i, SkyH(i)>>]
 Init == \/ \E i \in DOMAIN Polys, lim \in Limits \cup {0, 4}, s \in Scalings :
               case = [k |-> "fracture", p |-> Polys[i], ip |-> i, limit |-> lim, s |-> s]
+        \/ \E n \in {220, 300}, lim \in {5, 8}, d \in {"rtl", "ltr"} :
+              case = [k |-> "stair", p |-> IF d = "rtl" THEN SkyRTL(n) ELSE Rev(SkyRTL(n)), ip |-> n,
+                      n |-> n, limit |-> lim, s |-> 1]
         \* the same polygons through the GDSII writer's vertex limit (C01; filtered out by C12's runner)
         \/ \E i \in DOMAIN Polys, lim \in Limits \cup {0, 4}, s \in Scalings :
               case = [k |-> "gdsfrac", p |-> Polys[i], ip |-> i, limit |-> lim, s |-> s]
@@ -47,7 +57,7 @@ Init == \/ \E i \in DOMAIN Polys, lim \in Limits \cup {0, 4}, s \in Scalings :
 Next == UNCHANGED case
 
 \* the palette is made of simple polygons: every sample has winding -1, 0 or 1
-Laws == "p" \in DOMAIN case => \A q \in FineSamples(-1, 12, 1) : Winding(FineOfUser(<<case.p>>, 1)[1], q) \in {-1, 0, 1}
+Laws == ("p" \in DOMAIN case /\ case.k # "stair") => \A q \in FineSamples(-1, 12, 1) : Winding(FineOfUser(<<case.p>>, 1)[1], q) \in {-1, 0, 1}
 
 AppendOpts == [format |-> "TXT", charset |-> "UTF-8",
                openOptions |-> <<"WRITE", "CREATE", "APPEND">>]
